@@ -54,6 +54,9 @@ func (w *World) oracleOnBind(p *PodInfo, m *simkube.Mutation) {
 			}
 		}
 	}
+	if w.armed("C08") && p.App != nil && len(p.App.Ranges) > 0 {
+		w.oracleC08Bind(p)
+	}
 	if w.armed("C02") && p.App != nil && len(p.App.Ranges) == 0 {
 		// (c) the IPs written into the binding are exactly the IPs the store holds for the identity
 		var held []string
@@ -410,8 +413,15 @@ func (w *World) quiescentChecks(tag string, afterResync bool) {
 		}
 	}
 	w.S.Note("quiescent %s: %d/%d allocated, %d pods", tag, alloc, len(mem), len(w.pods))
-	if afterResync && w.armed("C03") {
+	if w.armed("C05") {
+		// restart/crash safety and agreement at the end of every history
+		w.evalMemcheck(tag)
+	}
+	if afterResync && w.armed("C03", "C05") {
 		w.leakCheck()
+	}
+	if afterResync && w.armed("C05") {
+		w.survivorCheck()
 	}
 	w.states = append(w.states, fmt.Sprintf("a%d/%d-p%d-f%d", alloc, len(mem), len(w.pods), len(w.K.List("floatingips", ""))))
 }
@@ -441,9 +451,108 @@ func (w *World) leakCheck() {
 			continue
 		}
 		if ok, why := w.reservedByPolicy(id); !ok {
-			w.fail("C03.leak", "leak:"+id.App.Kind+"/"+id.App.effPolicy(),
+			w.fail(w.prop+".leak", "leak:"+id.App.Kind+"/"+id.App.effPolicy(),
 				"after event handling and one resync pass, FloatingIP %s is still assigned to %q whose pod is gone or finished: %s", f.IP, f.Key, why)
 			return
 		}
 	}
+}
+
+// survivorCheck (C05): after a restart followed by resync no IP is owned twice and every existing bound pod
+// still owns the IP it was bound with.
+func (w *World) survivorCheck() {
+	seen := map[string]*PodInfo{}
+	for _, k := range w.sortedPodKeys() {
+		p := w.pods[k]
+		if !p.live() || p.Node == "" {
+			continue
+		}
+		for _, ip := range p.IPs {
+			if !w.inNewestConf(ip) {
+				continue
+			}
+			if q := seen[ip]; q != nil {
+				w.fail("C05.double-owner", "double-owner", "after recovery IP %s is carried by two live pods %s and %s", ip, q.key(), p.key())
+				return
+			}
+			seen[ip] = p
+			f := w.storeFip(ip)
+			if f == nil || f.Key != p.Key {
+				owner := "<nobody>"
+				if f != nil {
+					owner = f.Key
+				}
+				w.fail("C05.bound-pod-lost-ip", "bound-pod-lost-ip", "after recovery the live bound pod %s (uid %s) no longer owns its IP %s: store owner %s", p.key(), p.UID, ip, owner)
+				return
+			}
+		}
+	}
+}
+
+// ---- C08: multi-IP requests ------------------------------------------------------------------------------
+
+func (w *World) oracleC08Bind(p *PodInfo) {
+	rs := p.App.Ranges
+	if len(p.IPs) != len(rs) {
+		w.fail("C08.wrong-number-of-ips", "wrong-number-of-ips", "pod %s requested %d ranges %v and was bound with %d IPs %v", p.key(), len(rs), rs, len(p.IPs), p.IPs)
+		return
+	}
+	seen := map[string]bool{}
+	nodeSub := w.topo.SubnetOfNode(p.Node)
+	for i, ip := range p.IPs {
+		if seen[ip] {
+			w.fail("C08.duplicate-ip", "duplicate-ip", "pod %s bound with %v: %s twice", p.key(), p.IPs, ip)
+			return
+		}
+		seen[ip] = true
+		if !hasStr(rs[i], ip) {
+			w.fail("C08.ip-outside-range", "ip-outside-range", "pod %s: IP #%d %s is not in requested range #%d %v (all: %v)", p.key(), i, ip, i, rs[i], p.IPs)
+			return
+		}
+		// routable: in some configuration version that may be in force, the IP's pool lists the node's subnet
+		ok := false
+		for _, cs := range w.confVers {
+			if pool := cs[ip]; pool != nil && hasStr(pool.NodeSubnets, nodeSub) {
+				ok = true
+			}
+		}
+		if !ok {
+			w.fail("C08.ip-not-routable", "ip-not-routable", "pod %s on node %s (%s) bound with %s which is routable from no pool of that subnet", p.key(), p.Node, nodeSub, ip)
+			return
+		}
+	}
+	w.S.Stat("c08.multi-ip-binds")
+}
+
+// oracleC08Failed: a bind that failed must leave the identity with exactly the IPs it had before.
+func (w *World) oracleC08Failed(br *bindReport) {
+	if !w.armed("C08") {
+		return
+	}
+	p := w.podByUID[br.UID]
+	if p == nil || p.App == nil || len(p.App.Ranges) == 0 {
+		return
+	}
+	// only failures of the allocation itself are in the property's scope: a range that cannot be satisfied or a
+	// FloatingIP object creation that failed. A failing pods/binding call, cloud-provider call or attribute update of
+	// a pre-owned IP keeps the allocation for the retry by design.
+	inScope := strings.Contains(br.Err, "no enough available ips") || strings.Contains(br.Err, "enumerated fault")
+	if strings.Contains(br.Err, "update pod ") || strings.Contains(br.Err, "failed to assign ip") || strings.Contains(br.Err, "release policy") {
+		inScope = false
+	}
+	if !inScope {
+		return
+	}
+	if w.schedTouched[br.UID] {
+		w.S.Stat("c08.failed-bind-not-judged")
+		return // somebody else changed the identity's IPs meanwhile
+	}
+	before, _ := w.schedBefore[br.UID]
+	now := w.storeIPsOfKey(p.Key)
+	if strings.Join(before, ",") != strings.Join(now, ",") {
+		w.fail("C08.partial-allocation-left", "partial-allocation-left",
+			"bind of %s failed (%s) but the identity %q holds %v, before the attempt it held %v", p.key(), br.Err, p.Key, now, before)
+		return
+	}
+	w.S.Stat("probe.c08-failed-bind-rolled-back")
 }
